@@ -100,30 +100,7 @@ Record gencfg : Type := mk_gencfg {
 	cfgs := builtinConfigs()
 	for ci, nc := range cfgs {
 		c := nc.cfg
-		hs := map[int64]bool{0: true, 1: true, 1000000000: true}
-		add := func(b *big.Int) {
-			if b == nil {
-				return
-			}
-			for _, d := range []int64{-1, 0, 1} {
-				if h := b.Int64() + d; h >= 0 {
-					hs[h] = true
-				}
-			}
-		}
-		add(c.HomesteadBlock)
-		add(c.ByzantiumBlock)
-		add(c.ConstantinopleBlock)
-		add(c.EIP150Block)
-		add(c.EIP158Block)
-		for _, b := range c.HF {
-			add(b)
-		}
-		var heights []int64
-		for h := range hs {
-			heights = append(heights, h)
-		}
-		sort.Slice(heights, func(i, j int) bool { return heights[i] < heights[j] })
+		heights := latticeHeights(c)
 		fmt.Fprintf(w, "  mk_gencfg %q %s %s %s %s %s [", nc.name, coqOptBig(c.HomesteadBlock), coqOptBig(c.ByzantiumBlock),
 			coqOptBig(c.ConstantinopleBlock), coqOptBig(c.HF[5]), coqOptBig(c.HF[1]))
 		for i, h := range heights {
@@ -137,6 +114,78 @@ Record gencfg : Type := mk_gencfg {
 				fmt.Fprint(w, "; ")
 			}
 			fmt.Fprintf(w, "(%d, %q, %d)", h, sel, gt.ExpByte)
+		}
+		if ci == len(cfgs)-1 {
+			fmt.Fprintln(w, "]")
+		} else {
+			fmt.Fprintln(w, "];")
+		}
+	}
+	fmt.Fprintln(w, "].")
+	genRules(w)
+}
+
+// latticeHeights: 0, 1, 10^9, every fork block of the config -1/+0/+1, and the midpoint between consecutive fork blocks.
+func latticeHeights(c *params.ChainConfig) []int64 {
+	hs := map[int64]bool{0: true, 1: true, 1000000000: true}
+	var forks []int64
+	add := func(b *big.Int) {
+		if b == nil {
+			return
+		}
+		forks = append(forks, b.Int64())
+		for _, d := range []int64{-1, 0, 1} {
+			if h := b.Int64() + d; h >= 0 {
+				hs[h] = true
+			}
+		}
+	}
+	add(c.HomesteadBlock)
+	add(c.ByzantiumBlock)
+	add(c.ConstantinopleBlock)
+	add(c.EIP150Block)
+	add(c.EIP155Block)
+	add(c.EIP158Block)
+	for _, b := range c.HF {
+		add(b)
+	}
+	sort.Slice(forks, func(i, j int) bool { return forks[i] < forks[j] })
+	for i := 0; i+1 < len(forks); i++ {
+		hs[(forks[i]+forks[i+1])/2] = true
+	}
+	var heights []int64
+	for h := range hs {
+		heights = append(heights, h)
+	}
+	sort.Slice(heights, func(i, j int) bool { return heights[i] < heights[j] })
+	return heights
+}
+
+// chain rules (params.ChainConfig.Rules as stored by NewEVM) and the write protection
+// Interpreter.enforceRestrictions really applies in read-only mode, per config and height
+func genRules(w io.Writer) {
+	fmt.Fprintln(w, `
+(* chain rules NewEVM installs: fork blocks read by ChainConfig.Rules, and per observed block number
+   ((IsHomestead, IsEIP150, IsEIP155, IsEIP158, IsByzantium), SSTORE refused in read-only mode,
+   value-transferring CALL refused in read-only mode) *)
+Record genrules : Type := mk_genrules {
+  gr_name : string; gr_homestead : option Z; gr_eip150 : option Z; gr_eip155 : option Z; gr_eip158 : option Z;
+  gr_byzantium : option Z;
+  gr_observed : list (Z * (bool * bool * bool * bool * bool) * bool * bool) }.
+`)
+	fmt.Fprintln(w, "Definition gen_rules : list genrules := [")
+	cfgs := builtinConfigs()
+	for ci, nc := range cfgs {
+		c := nc.cfg
+		fmt.Fprintf(w, "  mk_genrules %q %s %s %s %s %s [", nc.name, coqOptBig(c.HomesteadBlock), coqOptBig(c.EIP150Block),
+			coqOptBig(c.EIP155Block), coqOptBig(c.EIP158Block), coqOptBig(c.ByzantiumBlock))
+		for i, h := range latticeHeights(c) {
+			r, sp, cp := vm.VerifChainRules(c, big.NewInt(h))
+			if i > 0 {
+				fmt.Fprint(w, "; ")
+			}
+			fmt.Fprintf(w, "(%d, (%s, %s, %s, %s, %s), %s, %s)", h, coqBool(r.IsHomestead), coqBool(r.IsEIP150), coqBool(r.IsEIP155),
+				coqBool(r.IsEIP158), coqBool(r.IsByzantium), coqBool(sp), coqBool(cp))
 		}
 		if ci == len(cfgs)-1 {
 			fmt.Fprintln(w, "]")
